@@ -25,6 +25,7 @@ SMOKE = [
     ('RelPeriodMech', 'MC_RelPeriod_prefix.cfg', 'MeetsContract'),
     ('AddMod', 'MC_AddMod_prefix.cfg', ('InBounds', 'TextIsSlice')),
     ('AddMod', 'MC_AddMod_adjacent.cfg', 'OnlyAdjacent'),
+    ('AddMod', 'MC_AddMod_unbounded.cfg', 'Disjoint'),
     ('DigitalValue', 'MC_DigitalValue_prefix.cfg', 'MeetsLiteral'),
     ('ModPushPop', 'MC_ModPushPop_noreset.cfg', 'Restored'),
     ('Preprocess', 'MC_Preprocess_prefix.cfg', 'SameLength'),
